@@ -60,6 +60,14 @@ pub fn base_module(b: &Value) -> Vec<u8> {
     let mut types = we::TypeSection::new();
     types.ty().function([], [we::ValType::I32]); // type 0: () -> i32   (every function of the base ...)
     types.ty().function([], []); // type 1: () -> ()   (... except the start function)
+    if b["extra_types"].as_bool().unwrap_or(false) {
+        // C13: a duplicate of type 0, and an explicit recursion group of two function types
+        types.ty().function([], [we::ValType::I32]); // type 2 == type 0
+        types.ty().rec(vec![
+            we::SubType { is_final: true, supertype_idx: None, composite_type: we::CompositeType { inner: we::CompositeInnerType::Func(we::FuncType::new([we::ValType::I32], [])), shared: false } },
+            we::SubType { is_final: true, supertype_idx: None, composite_type: we::CompositeType { inner: we::CompositeInnerType::Func(we::FuncType::new([we::ValType::I64], [we::ValType::I64])), shared: false } },
+        ]); // types 3, 4
+    }
     m.section(&types);
     let mut imports = we::ImportSection::new();
     let mut any_imp = false;
@@ -250,6 +258,13 @@ pub fn apply_history(module: &mut Module<'static>, hist: &[Value]) -> Vec<u32> {
             }
             "delete_global" => { module.delete_global(GlobalID(resolve(&step["id"], &results))); 0 }
             "mod_global_init" => { module.mod_global_init_expr(GlobalID(resolve(&step["id"], &results)), init_expr(&step["init"], &results)); 0 }
+            "add_typed_import_func" => {
+                // C13: the type is added through the type API, the RETURNED TypeID is what the import is given
+                let params: Vec<DataType> = arr(&step["params"]).iter().map(dt).collect();
+                let res: Vec<DataType> = arr(&step["results"]).iter().map(dt).collect();
+                let ty = module.types.add_func_type(&params, &res, None);
+                *module.add_import_func("env".to_string(), step["name"].as_str().unwrap().to_string(), ty).0
+            }
             "add_import_func" => {
                 let ty = module.types.add_func_type(&[], &[DataType::I32], None);
                 match tag_of(step) {
@@ -376,6 +391,7 @@ pub fn decode_module(bytes: &[u8]) -> Value {
     let (mut nfuncs, mut nglobals, mut nlocals) = (vec![], vec![], vec![]);
     let mut types: Vec<Value> = vec![];
     let mut customs: Vec<Value> = vec![];
+    let mut groups: Vec<Value> = vec![];
     for payload in wasmparser::Parser::new(0).parse_all(bytes) {
         use wasmparser::Payload as P;
         match payload.unwrap() {
@@ -383,12 +399,15 @@ pub fn decode_module(bytes: &[u8]) -> Value {
                 let i = i.unwrap();
                 let kind = match i.ty { wasmparser::TypeRef::Func(_) => "func", wasmparser::TypeRef::Global(_) => "global", wasmparser::TypeRef::Memory(_) => "memory", wasmparser::TypeRef::Table(_) => "table", _ => "other" };
                 let mut o = json!({"kind": kind, "module": i.module, "name": i.name});
+                if let wasmparser::TypeRef::Func(t) = i.ty { o["type"] = json!(t); }
                 if let wasmparser::TypeRef::Memory(mt) = i.ty { o["min"] = json!(mt.initial); o["max"] = json!(mt.maximum); }
                 if let wasmparser::TypeRef::Global(gt) = i.ty { o["mut"] = json!(gt.mutable); o["ty"] = json!(format!("{:?}", gt.content_type)); }
                 imports.push(o);
             },
             P::TypeSection(r) => for rg in r {
-                for st in rg.unwrap().into_types() {
+                let rg = rg.unwrap();
+                groups.push(json!([rg.is_explicit_rec_group(), rg.types().count()]));
+                for st in rg.into_types() {
                     if let wasmparser::CompositeInnerType::Func(ft) = &st.composite_type.inner {
                         types.push(json!({"params": ft.params().iter().map(|t| format!("{:?}", t).to_lowercase()).collect::<Vec<_>>(), "results": ft.results().iter().map(|t| format!("{:?}", t).to_lowercase()).collect::<Vec<_>>()}));
                     } else { types.push(json!(null)); }
@@ -461,7 +480,7 @@ pub fn decode_module(bytes: &[u8]) -> Value {
             _ => {}
         }
     }
-    json!({"customs": customs, "types": types, "names": {"funcs": nfuncs, "globals": nglobals, "locals": nlocals}, "imports": imports, "globals": globals, "funcs": funcs, "memories": mems, "tables": tables, "exports": exports, "start": start, "elems": elems, "data": data})
+    json!({"customs": customs, "type_groups": groups, "types": types, "names": {"funcs": nfuncs, "globals": nglobals, "locals": nlocals}, "imports": imports, "globals": globals, "funcs": funcs, "memories": mems, "tables": tables, "exports": exports, "start": start, "elems": elems, "data": data})
 }
 
 fn init_toks(e: &InitExpr) -> Value {
